@@ -97,3 +97,187 @@ theorem batch_no_loss (s : Shard) (b : Batch) (e : Ev) (id : Nat)
       exact ⟨Or.inl hp, by rw [hpid]; simpa using hd⟩
 
 end Snel.Shard
+
+namespace Snel.Shard
+
+/-- Row `e` is readable from a live directory `id ∉ D` whose index entries list its type. -/
+def AnchD (s : Shard) (D : List Nat) (e : Ev) : Prop :=
+  ∃ id ∈ s.live, id ∉ D ∧ e ∈ segRows s id ∧ Listed s id e.ty
+
+theorem runBatch_anchor (s : Shard) (b : Batch) (D : List Nat) (e : Ev)
+    (ha : AnchD s D e)
+    (hfresh : ∀ ent ∈ s.index, ent.1 ≠ b.out) (hD : b.out ∉ D) (hnl : b.out ∉ s.live) :
+    AnchD (runBatch s b).1 (D ++ (runBatch s b).2) e ∧
+    (∀ ent ∈ (runBatch s b).1.index, (∃ ent0 ∈ s.index, ent0.1 = ent.1) ∨ ent.1 = b.out) ∧
+    (∀ d ∈ (runBatch s b).2, d ∈ b.inputs ∧ ∃ ent0 ∈ s.index, ent0.1 = d) := by
+  obtain ⟨id, hlive, hidD, hrow, hlisted⟩ := ha
+  let outRows := b.tys.flatMap fun ty => b.inputs.flatMap fun i => rowsOf s i ty
+  let index1 := s.index.map fun (ent : Nat × List Nat) =>
+    if b.inputs.contains ent.1 then (ent.1, ent.2.filter (fun u => !b.tys.contains u)) else (ent.1, ent.2)
+  let drained := (index1.filter (fun ent => b.inputs.contains ent.1 && ent.2.isEmpty)).map (·.1)
+  have hrun : runBatch s b =
+      ({ s with segs := s.segs ++ [(b.out, outRows)],
+                tainted := s.tainted || s.everSeg.contains b.out,
+                everSeg := s.everSeg ++ [b.out],
+                index := index1.filter (fun ent => !(b.inputs.contains ent.1 && ent.2.isEmpty)) ++ [(b.out, b.tys)],
+                live := sortNat ((s.live.filter (fun l => !drained.contains l)) ++ [b.out]) }, drained) := by
+    simp only [runBatch]; rfl
+  -- facts about index1
+  have hidx1 : ∀ x ∈ index1, ∃ ent0 ∈ s.index, ent0.1 = x.1 ∧
+      x.2 = (if b.inputs.contains ent0.1 then ent0.2.filter (fun u => !b.tys.contains u) else ent0.2) := by
+    intro x hx
+    simp only [index1, List.mem_map] at hx
+    obtain ⟨ent0, h0, rfl⟩ := hx
+    refine ⟨ent0, h0, ?_, ?_⟩ <;> split <;> rfl
+  have hdr : ∀ d ∈ drained, d ∈ b.inputs ∧ ∃ ent0 ∈ s.index, ent0.1 = d := by
+    intro d hd
+    simp only [drained, List.mem_map, List.mem_filter] at hd
+    obtain ⟨x, ⟨hx, hc⟩, rfl⟩ := hd
+    obtain ⟨ent0, h0, hid0, _⟩ := hidx1 x hx
+    simp only [Bool.and_eq_true] at hc
+    exact ⟨by simpa using hc.1, ent0, h0, hid0⟩
+  have hout_nd : b.out ∉ drained := by
+    intro hd
+    obtain ⟨_, ent0, h0, hid0⟩ := hdr b.out hd
+    exact hfresh ent0 h0 hid0
+  rw [hrun]
+  refine ⟨?_, ?_, hdr⟩
+  · by_cases hA : b.inputs.contains id = true ∧ e.ty ∈ b.tys
+    · -- re-anchored in the output directory
+      refine ⟨b.out, ?_, ?_, ?_, ?_⟩
+      · simp only [mem_sortNat, List.mem_append, List.mem_singleton]; simp
+      · simp only [List.mem_append, not_or]; exact ⟨hD, hout_nd⟩
+      · rw [mem_segRows]
+        refine ⟨(b.out, outRows), by simp, rfl, ?_⟩
+        simp only [outRows, List.mem_flatMap]
+        exact ⟨e.ty, hA.2, id, by simpa using hA.1, by simp [rowsOf, hrow]⟩
+      · intro ent hent hentid
+        simp only [List.mem_append, List.mem_filter, List.mem_singleton] at hent
+        rcases hent with ⟨hx, _⟩ | rfl
+        · obtain ⟨ent0, h0, hid0, _⟩ := hidx1 ent hx
+          exact absurd (hid0.trans hentid) (hfresh ent0 h0)
+        · exact hA.2
+    · -- stays anchored where it was
+      have hkeep : ∀ x ∈ index1, x.1 = id → e.ty ∈ x.2 := by
+        intro x hx hxid
+        obtain ⟨ent0, h0, hid0, hx2⟩ := hidx1 x hx
+        have hty := hlisted ent0 h0 (hid0.trans hxid)
+        rw [hx2]
+        by_cases hc : b.inputs.contains ent0.1 = true
+        · simp only [hc, if_true, List.mem_filter]
+          refine ⟨hty, ?_⟩
+          have hidin : b.inputs.contains id = true := by rw [← hxid, ← hid0]; exact hc
+          have : e.ty ∉ b.tys := fun h => hA ⟨hidin, h⟩
+          simpa using this
+        · simp only [hc, if_false, Bool.false_eq_true]; exact hty
+      have hnd : id ∉ drained := by
+        intro hd
+        simp only [drained, List.mem_map, List.mem_filter] at hd
+        obtain ⟨x, ⟨hx, hc⟩, hxid⟩ := hd
+        have := hkeep x hx hxid
+        simp only [Bool.and_eq_true] at hc
+        have hemp : x.2 = [] := by simpa using hc.2
+        rw [hemp] at this; simp at this
+      refine ⟨id, ?_, ?_, ?_, ?_⟩
+      · simp only [mem_sortNat, List.mem_append, List.mem_filter, List.mem_singleton]
+        exact Or.inl ⟨hlive, by simpa using hnd⟩
+      · simp only [List.mem_append, not_or]; exact ⟨hidD, hnd⟩
+      · rw [mem_segRows] at hrow ⊢
+        obtain ⟨p, hp, hpid, hpe⟩ := hrow
+        exact ⟨p, by simp [hp], hpid, hpe⟩
+      · intro ent hent hentid
+        simp only [List.mem_append, List.mem_filter, List.mem_singleton] at hent
+        rcases hent with ⟨hx, _⟩ | rfl
+        · exact hkeep ent hx hentid
+        · have hbo : b.out = id := hentid
+          exact absurd (hbo ▸ hlive) hnl
+  · intro ent hent
+    simp only [List.mem_append, List.mem_filter, List.mem_singleton] at hent
+    rcases hent with ⟨hx, _⟩ | rfl
+    · obtain ⟨ent0, h0, hid0, _⟩ := hidx1 ent hx
+      exact Or.inl ⟨ent0, h0, hid0⟩
+    · exact Or.inr rfl
+
+end Snel.Shard
+
+namespace Snel.Shard
+
+def roundFold (s : Shard) (bs : List Batch) (D : List Nat) : Shard × List Nat :=
+  bs.foldl (fun (acc : Shard × List Nat) b =>
+    let (s', d) := runBatch acc.1 b
+    (s', acc.2 ++ d)) (s, D)
+
+theorem runBatch_live (s : Shard) (b : Batch) : ∀ l ∈ (runBatch s b).1.live, l ∈ s.live ∨ l = b.out := by
+  intro l hl
+  simp only [runBatch, mem_sortNat, List.mem_append, List.mem_filter, List.mem_singleton] at hl
+  rcases hl with ⟨h, _⟩ | h
+  · exact Or.inl h
+  · exact Or.inr h
+
+theorem fold_anchor (e : Ev) (bs : List Batch) : ∀ (s : Shard) (D : List Nat),
+    AnchD s D e →
+    (∀ b ∈ bs, (∀ ent ∈ s.index, ent.1 ≠ b.out) ∧ b.out ∉ D ∧ b.out ∉ s.live) →
+    bs.Pairwise (fun a b => a.out ≠ b.out) →
+    AnchD (roundFold s bs D).1 (roundFold s bs D).2 e := by
+  induction bs with
+  | nil => intro s D ha _ _; simpa [roundFold] using ha
+  | cons b bs ih =>
+    intro s D ha hall hpw
+    obtain ⟨hfresh, hD, hnl⟩ := hall b (by simp)
+    obtain ⟨ha', hidx, hdr⟩ := runBatch_anchor s b D e ha hfresh hD hnl
+    rw [List.pairwise_cons] at hpw
+    have hstep : roundFold s (b :: bs) D = roundFold (runBatch s b).1 bs (D ++ (runBatch s b).2) := by
+      simp only [roundFold, List.foldl_cons]
+    rw [hstep]
+    apply ih _ _ ha' _ hpw.2
+    intro b' hb'
+    obtain ⟨hf', hD', hnl'⟩ := hall b' (by simp [hb'])
+    have hne : b.out ≠ b'.out := hpw.1 b' hb'
+    refine ⟨?_, ?_, ?_⟩
+    · intro ent hent
+      rcases hidx ent hent with ⟨ent0, h0, hid0⟩ | hout
+      · rw [← hid0]; exact hf' ent0 h0
+      · rw [hout]; exact hne
+    · simp only [List.mem_append, not_or]
+      refine ⟨hD', ?_⟩
+      intro hd
+      obtain ⟨_, ent0, h0, hid0⟩ := hdr b'.out hd
+      exact hf' ent0 h0 hid0
+    · intro hl
+      rcases runBatch_live s b b'.out hl with h | h
+      · exact hnl' h
+      · exact hne h.symm
+
+/-- Decidable side condition on the batches of a round: output ids are pairwise distinct and
+name neither an index entry nor a live directory. (True of every plan the policy produced in the
+correspondence runs; the allocator hands out `level·span + max offset + 1 + i`.) -/
+def GoodBatches (s : Shard) (bs : List Batch) : Prop :=
+  (∀ b ∈ bs, (∀ ent ∈ s.index, ent.1 ≠ b.out) ∧ b.out ∉ s.live) ∧
+  bs.Pairwise (fun a b => a.out ≠ b.out)
+
+theorem compactRound_eq (s : Shard) :
+    compactRound s =
+      { (roundFold (loadIndex s) (groupPlans (planAll (loadIndex s).kmerge (loadIndex s).index)) []).1 with
+        segs := (roundFold (loadIndex s) (groupPlans (planAll (loadIndex s).kmerge (loadIndex s).index)) []).1.segs.filter
+          (fun p => !(roundFold (loadIndex s) (groupPlans (planAll (loadIndex s).kmerge (loadIndex s).index)) []).2.contains p.1) } := by
+  simp only [compactRound, roundFold]
+
+/-- A whole compaction round (any number of batches, any levels, any event types) loses no row
+that is readable from a live directory whose index entries list the row's type. -/
+theorem round_no_loss (s : Shard) (e : Ev)
+    (hgood : GoodBatches (loadIndex s) (groupPlans (planAll (loadIndex s).kmerge (loadIndex s).index)))
+    (ha : AnchD (loadIndex s) [] e) :
+    e ∈ liveRows (compactRound s) := by
+  have hf := fold_anchor e _ (loadIndex s) [] ha
+    (fun b hb => ⟨(hgood.1 b hb).1, by simp, (hgood.1 b hb).2⟩) hgood.2
+  obtain ⟨id, hlive, hnd, hrow, _⟩ := hf
+  rw [compactRound_eq, mem_liveRows]
+  refine ⟨id, hlive, ?_⟩
+  rw [mem_segRows] at hrow ⊢
+  obtain ⟨p, hp, hpid, hpe⟩ := hrow
+  refine ⟨p, ?_, hpid, hpe⟩
+  simp only [List.mem_filter]
+  refine ⟨hp, ?_⟩
+  rw [hpid]; simpa using hnd
+
+end Snel.Shard
